@@ -326,6 +326,7 @@ int _vnacal_new_add_common(vnacal_new_add_arguments_t vnaa)
 	vnp->vn_unknown_parameter_anchor;
     const int old_unknown_parameters = vnp->vn_unknown_parameters;
     const int old_correlated_parameters = vnp->vn_correlated_parameters;
+    const int old_serial = vnp->vn_parameter_hash.vnph_next_serial;
 
     /* return code */
     int rc = -1;
@@ -1050,7 +1051,8 @@ out:
     _vnacal_new_free_measurement(vnmp);
     if (rc != 0) {
 	_vnacal_new_rollback_parameters(vnp, old_unknown_anchor,
-		old_unknown_parameters, old_correlated_parameters);
+		old_unknown_parameters, old_correlated_parameters,
+		old_serial);
     }
 
     return rc;
